@@ -209,7 +209,7 @@ def evalCase (j : Json) : Json :=
       ("flag", Json.bool res.flag),
       ("val", valJson res.val),
       ("env", Json.arr (res.env.base.map objJson).toArray),
-      ("trace", traceJson res.env.trace)]
+      ("trace", traceJson res.env.trace.reverse)]
     ({ res.env with vars := [] }, outs ++ [out])
   let (_, outs) := (jArr j "rules").foldl step (env0, [])
   Json.mkObj [("i", jObj j "i"), ("model", Json.arr outs.toArray)]
